@@ -23,3 +23,12 @@ Proof.
   destruct (mirror_ok max sport src dst port payload s d H1 H2 H3 H4 H5 H6) as (p & -> & _). discriminate.
 Qed.
 Print Assumptions C16_never_panics.
+
+(* the worker's side: the copy a worker queues for the mirror goroutine.  For any number of workers and any interleaving of
+   workers and mirror goroutine, every packet emitted for datagram i was copied out of a buffer that held datagram i: a
+   buffer has exactly one owner (free / a worker / the queue / the mirror goroutine) at any time. *)
+From VF Require Model.MirrorHandoff Proofs.MirrorHandoffProofs.
+Theorem C16_worker_handoff_faithful : forall n s, MirrorHandoff.hreach (MirrorHandoff.hinit n) s ->
+  Forall (fun e => snd e = fst e) (MirrorHandoff.emitted s).
+Proof. exact MirrorHandoffProofs.mirror_handoff_faithful. Qed.
+Print Assumptions C16_worker_handoff_faithful.
